@@ -9,3 +9,5 @@ import RzmqModel.Props.C09
 #print axioms Rzmq.C09.cancelled_last_frame_leaves_the_socket_usable
 #print axioms Rzmq.C09.keeping_the_transaction_across_the_await_breaks_it
 #print axioms Rzmq.C09.handing_frames_over_one_by_one_breaks_it
+#print axioms Rzmq.C09.frame_by_frame_send_without_cancellation_delivers_everything
+#print axioms Rzmq.C09.each_dropped_future_loses_at_most_one_message
